@@ -108,6 +108,16 @@ class Gen:
             h = r.choice(sorted(self.alive))
             q = self.owner[h] if k == 'write' else p
             t = r.choice(self.wtypes())
+            if self.profile == 'promotion':
+                # the promotion oracle demands equal values at the end: two peers may write one component only
+                # with a drain in between (conflicting concurrent writers may end quiescent and disagree, which
+                # is outside C02 / C07); a change of writer is therefore preceded by a drain
+                lw = getattr(self, 'last_writer', None)
+                if lw is None:
+                    lw = self.last_writer = {}
+                if lw.get((h, t), self.owner[h]) != q:
+                    self.emit('DRAIN 60')
+                lw[(h, t)] = q
             self.emit('OP %d write %d %d %d' % (q, h, t, self.fresh_val(t)))
         elif k == 'excl' and self.alive and self.types:
             h = r.choice(sorted(self.alive))
@@ -1009,6 +1019,97 @@ def asset_overtake(seed):
     lines.append('DRAIN 80')
     lines.append('SLEEP 300')
     lines.append('DRAIN 60')
+    return '\n'.join(lines) + '\n', dict(enabled={p: (1, 1, 1) for p in range(n)})
+
+
+def rewrite_soon(seed):
+    """C17 / C02 with ONE writer per entity: a peer gives an entity Transform / Visibility / a light (together,
+    or the light first and the rest 0..6 frames later) and writes the same components AGAIN 0..6 frames after
+    that - while the receivers' companion fixes and the echoes they might cause are still under way. Every
+    peer must end with the writer's last values (and the companions)."""
+    r = random.Random(seed)
+    n = r.choice([2, 3, 3])
+    types = [2, 3, 4, 5, 6]
+    lines = _header(r, n, types)
+    for p in range(n):
+        lines.append('OP %d setup' % p)
+    lines.append('ROUND %d' % r.randint(6, 9))
+    lines.append('DRAIN 40')
+    val = 30
+
+    def vv(t, v):
+        return v % 3 if t == 3 else v       # Visibility has three values
+
+    def frames(k):
+        for _ in range(k):
+            lines.append('ROUND 1')
+    for h in range(1, r.randint(3, 5)):
+        w = r.choice(range(n))
+        light = r.choice([4, 5, 6])
+        rest = r.sample([2, 3], r.randint(1, 2))
+        val += 3
+        if r.random() < 0.5:
+            lines.append('OP %d spawn %d 1 %s' % (w, h, ' '.join('%d:%d' % (t, vv(t, val + i)) for i, t in enumerate([light] + rest))))
+        else:
+            lines.append('OP %d spawn %d 1 %d:%d' % (w, h, light, val))
+            frames(r.randint(0, 6))
+            for i, t in enumerate(rest):
+                lines.append('OP %d write %d %d %d' % (w, h, t, vv(t, val + 1 + i)))
+        for _ in range(r.randint(1, 3)):
+            frames(r.randint(0, 6))
+            val += 3
+            for i, t in enumerate(r.sample([light] + rest, r.randint(1, 1 + len(rest)))):
+                lines.append('OP %d write %d %d %d' % (w, h, t, vv(t, val + i)))
+        lines.append('DRAIN 60')
+    lines.append('DRAIN 40')
+    return '\n'.join(lines) + '\n', dict()
+
+
+def textured_material(seed):
+    """C06 / C09: a material whose base colour texture is a uuid image. One peer publishes the material and the
+    image (either first, 0..4 frames apart), later overwrites the material and / or the image, 0..6 frames
+    after the image has arrived on the others: every peer ends with the last contents, and a publication
+    costs one message per client (nothing is announced back)."""
+    r = random.Random(seed)
+    n = r.choice([2, 3, 3])
+    lines = _header(r, n, [0], v6=(r.random() < 0.1))
+    for p in range(n):
+        lines.append('OP %d switches 1 1 1' % p)
+        lines.append('OP %d setup' % p)
+    lines.append('ROUND %d' % r.randint(6, 9))
+    lines.append('DRAIN 40')
+    w = r.choice(range(n))
+    img = 7200 + r.randint(0, 9)
+    mat = 7100 + r.randint(0, 9)
+    k = 0
+
+    def mval():
+        nonlocal k
+        k += 1
+        return 1000000 + 100 * img + k
+    ival = 50
+    first = r.choice(['mat', 'img'])
+    for what in ([first] + [x for x in ['mat', 'img'] if x != first]):
+        if what == 'mat':
+            lines.append('OP %d addasset 0 %d %d' % (w, mat, mval()))
+        else:
+            ival += 1
+            lines.append('OP %d addasset 2 %d %d' % (w, img, ival))
+        lines.append('ROUND %d' % r.randint(0, 4))
+    lines.append('SLEEP 100')
+    if r.random() < 0.5:
+        lines.append('DRAIN 60')
+    else:
+        lines.append('ROUND %d' % r.randint(3, 8))
+    for _ in range(r.randint(1, 3)):
+        if r.random() < 0.65:
+            lines.append('OP %d addasset 0 %d %d' % (w, mat, mval()))
+        else:
+            ival += 1
+            lines.append('OP %d addasset 2 %d %d' % (w, img, ival))
+        lines.append('ROUND %d' % r.randint(0, 6))
+    lines.append('SLEEP 100')
+    lines.append('DRAIN 80')
     return '\n'.join(lines) + '\n', dict(enabled={p: (1, 1, 1) for p in range(n)})
 
 
